@@ -1383,6 +1383,7 @@ func (t *FnTrans) block(b *ssa.BasicBlock) {
 	if li != nil {
 		// assume invariants at the header
 		env := t.pointEnv(b, t.firstNonPhi(b), st.clone(), nil)
+		env.guard = reach
 		if li.spec != nil {
 			for _, c := range li.spec.Invariants {
 				t.assumps = append(t.assumps, Assump{Guard: reach, F: Formula{Clause: c, Env: env}, Why: "loop invariant"})
@@ -1424,6 +1425,7 @@ func (t *FnTrans) loopHeader(b *ssa.BasicBlock, li *loopInfo, preds []*ssa.Basic
 				}
 			}
 			env := t.pointEnv(b, t.firstNonPhi(b), ins[k].st.clone(), subst)
+			env.guard = conds[k]
 			for _, c := range li.spec.Invariants {
 				lbl := c.Label
 				if lbl == "" {
